@@ -222,7 +222,7 @@ R.contract("Message.to_answer", params={"self": "Message"}, returns="Message",
                     ("flags", "result.header.command_flags == 64 * bit6(self.header.command_flags)"),
                     ("new-objects", "fresh(result) and fresh(result.header)")],
            raises=[Raise("AvpDecodeError", "False", "only_if")],
-           allocates=True, props=["C20"],
+           allocates=True, props=["C20", "C07"],
            note="frame: modifies nothing, so the request (header, AVPs, attributes) is unchanged")
 
 R.contract("MessageHeader._flags", params={"self": "MessageHeader"}, returns="List[str]", props=["C04"],
